@@ -8,6 +8,7 @@ Streams
   theorem     theorem-hypothesis tie: the driver evaluates the hypotheses of C02_tag_value_exact / C02_frame /
               C02_copyright_exact_partial on the physical line of every grid case; where they hold the implementation must
               return exactly the planted value
+  textlines   theorem-hypothesis tie for C02_tag_lines: texts of several tag lines
   lint        a sample of grid files through `reuse lint --json`
   window      tag lines around the 4096-byte boundary, multi-byte characters on the cut, snippet marker before / after / absent
   snippetfile files with a snippet marker: the marker straddling 4096*k, 8-20 KiB files with tags / ignore blocks on the boundaries
@@ -344,7 +345,7 @@ class GridStream(Stream):
             "CR}; each written to a real file and read with reuse_info_of_file (contributors together with a copyright line so that the file "
             "reports them); oracle: exactly the planted value; non-trivial = distinct (style, form, decoration, kind)")
 
-    PER = {"quick": 2, "thorough": 12}
+    PER = {"quick": 5, "thorough": 40}
 
     def cases(self, tier, rng):
         yield from grid_cases(tier, rng, self.PER[tier])
@@ -586,6 +587,57 @@ class TheoremStream(Stream):
         return {"line": None if b is None else b["line"] + case["le"], "planted": case["value"], "kind": case["kind"]}
 
 
+class TextTieStream(Stream):
+    name = "textlines"
+    rule = ("texts of 2-5 physical tag lines of one tag kind taken from the grid (different styles, decorations and values in one text): "
+            "the driver evaluates the hypotheses of C02_tag_lines (Spec.WFLines: every line well formed in its place, END stopping at "
+            "its own line end); where they hold find_spdx_tag on the whole text must return exactly the planted values in order; "
+            "non-trivial = hypotheses hold")
+
+    def cases(self, tier, rng):
+        pool = [c for c in grid_cases(tier, rng, 1) if c["kind"] in "LN" and "frame" not in c["deco"]]
+        n = 4000 if tier == "thorough" else 500
+        for _ in range(n):
+            kind = rng.choice("LN")
+            cs = [c for c in (rng.choice(pool) for _ in range(12)) if c["kind"] == kind][: rng.randint(2, 5)]
+            if len(cs) >= 2:
+                yield {"kind": kind, "lines": [dict(c, eol="\n") for c in cs]}
+
+    def parts(self, case):
+        bs = [case_build(c) for c in case["lines"]]
+        return [b for b in bs if b is not None]
+
+    def impl(self, case):
+        from reuse import extract
+        bs = self.parts(case)
+        text = "".join(b["line"] + "\n" for b in bs)
+        pat = extract._LICENSE_IDENTIFIER_PATTERN if case["kind"] == "L" else extract._CONTRIBUTOR_PATTERN
+        got = list(extract.find_spdx_tag(text, pat))
+        return ("ok|" if got == [b["v"] for b in bs] else "bad|") + enc_list(got)
+
+    def model_lines(self, case):
+        bs = self.parts(case)
+        return ["c02lines\t%s\t%s\t%s\t%s\t%s" % (case["kind"], enc_list(b["pre"] for b in bs), enc_list(b["blanks"] for b in bs),
+                                                    enc_list(b["v"] for b in bs), enc_list(b["trail"] for b in bs))]
+
+    def agree(self, case, impl_out, model_out):
+        if model_out != "1":
+            return True
+        self._hyp = getattr(self, "_hyp", set())
+        self._hyp.add(self.key(case))
+        return impl_out.startswith("ok|")
+
+    def key(self, case):
+        return tuple((c["style"], c["form"], c["deco"], c["value"]) for c in case["lines"])
+
+    def nontrivial(self, case, impl_out):
+        k = self.key(case)
+        return k if k in getattr(self, "_hyp", ()) else None
+
+    def show(self, case):
+        return {"text": "".join(b["line"] + "\n" for b in self.parts(case)), "kind": case["kind"]}
+
+
 # --------------------------------------------------------------------------
 # lint --json
 
@@ -598,7 +650,7 @@ class LintStream(Stream):
     def cases(self, tier, rng):
         allc = list(grid_cases(tier, rng, 1))
         rng.shuffle(allc)
-        for case in allc[: (400 if tier == "thorough" else 60)]:
+        for case in allc[: (500 if tier == "thorough" else 120)]:
             if case["kind"] != "N":
                 yield case
 
@@ -1161,7 +1213,7 @@ def search(seed):
 
 PROPERTY = Property(
     pid="C02",
-    streams=[CorpusStream(), textcorr.FindTagStream(), textcorr.CSearchStream(), textcorr.ExtractStream(), SmallEnumStream(), GridStream(), TheoremStream(),
+    streams=[CorpusStream(), textcorr.FindTagStream(), textcorr.CSearchStream(), textcorr.ExtractStream(), SmallEnumStream(), GridStream(), TheoremStream(), TextTieStream(),
              LintStream(), WindowStream(), SnippetFileStream(), ParseErrorStream(), DecodeStream()],
     assumptions=[
         "CPython's re engine on the tag patterns (`^(.*?)TAG[ \\t]+(.*?)END$`, MULTILINE, findall) and on the three copyright patterns is "
